@@ -402,7 +402,7 @@ fn opts(accept_weight: u32, basic: BasicOpts) -> C17Opts {
 }
 
 fn fam_mixed(ch: Chooser, ctx: &RunCtx) -> RunOut {
-    let (w, sc) = run_scen(ch, ctx, opts(50, BasicOpts { op_kinds: vec![1, 2, 3, 4], ops_max: 2, retry: 300, size_max: 30_000, ..Default::default() }), vec![], false);
+    let (w, sc) = run_scen(ch, ctx, opts(50, BasicOpts { op_kinds: vec![1, 2, 3, 4, 0, 0], ops_max: 4, retry: 300, size_max: 30_000, ..Default::default() }), vec![], false);
     finish(w, sc)
 }
 
